@@ -518,6 +518,43 @@ def main():
 
     body_def("trapDecoderStateless", ": Bool", trap_stateless_builder, "false")
 
+    def level_builder():
+        # validate_security_level: a sequence of `if <condition>: raise UnsupportedSecurityLevel(...)`
+        # over the credentials' keys and the flags of the incoming message
+        import puresnmp_plugins.security.usm as USM
+
+        fn = func_ast(USM.validate_security_level)
+        atoms = {"credentials.auth is not None": "(hasAuth = true)", "credentials.priv is not None": "(hasPriv = true)",
+                 "credentials.auth is None": "(hasAuth = false)", "credentials.priv is None": "(hasPriv = false)",
+                 "flags.auth": "(fAuth = true)", "flags.priv": "(fPriv = true)",
+                 "message.header.flags.auth": "(fAuth = true)", "message.header.flags.priv": "(fPriv = true)"}
+
+        def cond(e):
+            key = ast.unparse(e)
+            if key in atoms:
+                return atoms[key]
+            if isinstance(e, ast.UnaryOp) and isinstance(e.op, ast.Not):
+                return f"(¬ {cond(e.operand)})"
+            if isinstance(e, ast.BoolOp):
+                return "(" + (" ∧ " if isinstance(e.op, ast.And) else " ∨ ").join(cond(v) for v in e.values) + ")"
+            raise Untranslatable(f"condition {key}")
+
+        conds = []
+        for st in fn.body:
+            if isinstance(st, ast.Expr) and isinstance(st.value, ast.Constant):
+                continue
+            if isinstance(st, ast.Assign) and ast.unparse(st) == "flags = message.header.flags":
+                continue
+            if isinstance(st, ast.If) and not st.orelse and len(st.body) == 1 and isinstance(st.body[0], ast.Raise) and "UnsupportedSecurityLevel" in ast.unparse(st.body[0]):
+                conds.append(cond(st.test))
+                continue
+            raise Untranslatable(f"statement {ast.unparse(st)[:60]}")
+        if not conds:
+            raise Untranslatable("no check at all")
+        return "decide (" + " ∨ ".join(conds) + ")"
+
+    body_def("levelRefused", "(hasAuth hasPriv fAuth fPriv : Bool) : Bool", level_builder, "false")
+
     # ---- reflected data --------------------------------------------------------------
     def fact(name, typ, builder, stub):
         try:
